@@ -6,6 +6,7 @@ scenario-specific data for a Resource.
 """
 
 import contextlib
+from datetime import timedelta
 from typing import TYPE_CHECKING, Any, Callable, Optional
 
 from scriptplan.core.scenario_data import ScenarioData
@@ -138,6 +139,12 @@ class ResourceScenario(ScenarioData):
         # starts at (or after) the project end and must never be booked.
         if size > 0:
             self.scoreboard[size - 1] = 2
+            # With a resolution that does not divide the project period, the slot before
+            # it straddles the project end: work booked there would end after the end.
+            if size > 1:
+                last_start = self.project.idxToDate(size - 2)
+                if last_start is not None and last_start + timedelta(seconds=granularity) > end:
+                    self.scoreboard[size - 2] = 2
 
         # Apply global leaves
         leaves = self.project.attributes.get("leaves", [])
